@@ -44,7 +44,7 @@ def main(argv):
                         ("listIds", "utilities.cpp listIds: EVERY identifier of the model, its units (their import sources and unit children) and its component trees is collected - "
                                     "what Printer::printModel(model, true) avoids when it generates ids")):
         c.harnesses.append(("listids", Harness("h_" + nm, "U", enforce=nm, replace=[x for x in lstubs if x != nm] + ["listComponentIds__rec"], defines={"HEAP_N": 12, "PW_NO_H": 1},
-                                               backend="kissat|z3", timeout=900, loop_contracts=True, carries=carries)))
+                                               backend="kissat|z3", timeout=900, loop_contracts=True, object_bits=12, carries=carries)))
     wd = engine.work_dir("C13")
     exe = {}
 
